@@ -600,11 +600,18 @@ impl World for RankselWorld {
         } else {
             (len, shape)
         };
+        // Select9's exact-position classes (spans of 128.. subinventory words per 512 ones) need sparse stretches of
+        // a few hundred thousand bits
+        let (len, shape, sparse_dens) = if structure.contains("select9") && rng.chance(1, 5) {
+            (rng.urange(70_000, 700_000), *rng.pick(&["uniform", "dense_sparse", "sparse_dense", "few", "blocks"]), Some(*rng.pick(&[1u32, 2, 4, 10, 30])))
+        } else {
+            (len, shape, None)
+        };
         let small_inv = shape.starts_with("gapmix");
         RanksCase {
             len,
             shape: shape.into(),
-            dens: *rng.pick(&[1u32, 10, 100, 300, 500, 500, 700, 900, 990, 999]),
+            dens: sparse_dens.unwrap_or(*rng.pick(&[1u32, 2, 10, 100, 300, 500, 500, 700, 900, 990, 999])),
             seed: rng.next_u64(),
             tail: rng.pick(&["clean", "clean", "pop", "pop", "raw", "raw_extra"]).to_string(),
             structure,
